@@ -409,14 +409,30 @@ def apply_rewrites(src, mask, it, ed, stats, spec_entry):
             j += 1
         m2 = re.match(r'\s+as\s+usize\b', src[j + 1:hi])
         if m2:
-            r7b.append((s0, j + 1, j + 1 + m2.end()))
+            r7b.append((s0, j + 1, j + 1 + m2.end(), 'f32_to_usize'))
+    # R7d: `( E ) as i32` where E is a parenthesised arithmetic expression containing an `as f32` cast (hence float-typed; comparisons excluded)
+    for m in re.finditer(r'\)\s+as\s+i32\b', body):
+        pc = lo + m.start()
+        if mask[pc] != ord('c'): continue
+        i = pc; d = 0
+        while i > lo:
+            if mask[i] == ord('c'):
+                if src[i] == ')': d += 1
+                elif src[i] == '(':
+                    d -= 1
+                    if d == 0: break
+            i -= 1
+        if i <= lo or src[i - 1].isalnum() or src[i - 1] in '_>': continue      # a call's argument list, not a parenthesised expression
+        inner = src[i + 1:pc]
+        if not re.search(r'\bas\s+f32\b', inner) or re.search(r'[<>]|==|!=|&&|\|\|', inner): continue
+        r7b.append((i, pc + 1, lo + m.end(), 'f32_to_i32'))
     for (a0, b0, op0) in r7:
         inner = [x for x in r7b if x[0] <= a0 and b0 <= x[1]]
         if inner: continue
         ed.replace(a0, b0, 'crate::spec::cast_f32(%s)' % op0)
         stats['R7_cast_f32'] = stats.get('R7_cast_f32', 0) + 1
-    for (s0, e0, end0) in r7b:
-        ed.replace(s0, end0, 'crate::spec::f32_to_usize(%s)' % r7_rewrite_string(src[s0:e0]))
+    for (s0, e0, end0, wfn) in r7b:
+        ed.replace(s0, end0, 'crate::spec::%s(%s)' % (wfn, r7_rewrite_string(src[s0:e0])))
         stats['R7_cast_f32'] = stats.get('R7_cast_f32', 0) + 1
     # R7c: the constant `std::f32::consts::PI` => `f32_pi()` (wrapper returning the constant; Verus has no spec for core::f32::consts)
     for m in re.finditer(r'\b(?:std|core)::f32::consts::PI\b', body):
